@@ -3,6 +3,7 @@ package checks
 import (
 	"fmt"
 	"math/rand/v2"
+	"strings"
 	"sync"
 	"sync/atomic"
 	"time"
@@ -42,6 +43,7 @@ type c09Run struct {
 	err              error
 	isHedge          bool
 	exec             failsafe.Execution[int]
+	statsBad         string
 	cancelledAtEntry bool
 	finishedNormally bool
 }
@@ -147,7 +149,7 @@ func checkC09(rep *vk.Report) {
 		if rep.Skip(idx) {
 			return
 		}
-		c09Scenario(rep, idx)
+		c09Scenario(rep, idx, "C09")
 	})
 	reportYields(rep)
 	rep.Require("scenarios_with_hedges", 200)
@@ -160,7 +162,9 @@ func checkC09(rep *vk.Report) {
 var c09Vals atomic.Int64
 var c09Perms sync.Map
 
-func c09Scenario(rep *vk.Report, idx int) {
+// c09Scenario runs one hedge scenario. prop selects the reporting property: C09 judges everything; C17 only the
+// statistics (IsHedge accounting, Attempts/Hedges identity in the done event and inside attempts).
+func c09Scenario(rep *vk.Report, idx int, prop string) {
 	r := vk.Rng(rep.Seed, "C09", idx)
 	cs := genC09(r)
 	n := cs.MaxHedges + 1
@@ -232,6 +236,11 @@ func c09Scenario(rep *vk.Report, idx int) {
 	fn := func(exec failsafe.Execution[int]) (int, error) {
 		k := int(entered.Add(1)) - 1
 		run := &c09Run{k: k, enter: time.Now(), isHedge: exec.IsHedge(), exec: exec, cancelledAtEntry: exec.IsCanceled()}
+		// inside an attempt: Attempts counts every attempt started so far, Hedges every hedge started so far; with
+		// overlapping attempts these can only be bounded: hedges <= maxHedges, attempts >= 1 + hedges seen earlier
+		if h, at := exec.Hedges(), exec.Attempts(); h > cs.MaxHedges || at < 1 || (exec.IsHedge() && h < 1) || at > 1+cs.MaxHedges+exec.Retries() {
+			run.statsBad = fmt.Sprintf("attempt entry #%d saw Attempts=%d Hedges=%d Retries=%d IsHedge=%v with maxHedges=%d", k, at, h, exec.Retries(), exec.IsHedge(), cs.MaxHedges)
+		}
 		mu.Lock()
 		runs = append(runs, run)
 		mu.Unlock()
@@ -300,13 +309,16 @@ func c09Scenario(rep *vk.Report, idx int) {
 		}
 	}()
 	viol := func(sig, msg string) {
+		if prop != "C09" && sig != "ishedge-accounting" && sig != "attempts-identity" {
+			return
+		}
 		mu.Lock()
 		defer mu.Unlock()
 		rs := ""
 		for _, ru := range runs {
 			rs += fmt.Sprintf("[#%d hedge=%v exited=%v normal=%v value=%d err=%v cancelledNow=%v]", ru.k, ru.isHedge, !ru.exit.IsZero(), ru.finishedNormally, ru.value, ru.err, ru.exec.IsCanceled())
 		}
-		rep.Violate(idx, "C09/"+sig, msg+fmt.Sprintf(" (case %+v; result (%d,%v); runs %s, OnHedge events %d, done event attempts/hedges/retries %s)", cs, res, err, rs, len(hedgeTimes), doneStats), cs)
+		rep.Violate(idx, prop+"/"+sig, msg+fmt.Sprintf(" (case %+v; result (%d,%v); runs %s, OnHedge events %d, done event attempts/hedges/retries %s)", cs, res, err, rs, len(hedgeTimes), doneStats), cs)
 	}
 	returned := false
 	stuck := false
@@ -446,6 +458,22 @@ func c09Scenario(rep *vk.Report, idx int) {
 	// entries can lag behind OnHedge (goroutine not yet scheduled), never exceed it
 	if nf > 1 || nh > len(hts) || (len(runsC) == len(hts)+1 && nf != 1) {
 		viol("ishedge-accounting", fmt.Sprintf("%d attempts saw IsHedge()==false and %d saw true for %d OnHedge events", nf, nh, len(hts)))
+		return
+	}
+	if strings.Contains(doneStats, "IDENTITY-BROKEN") {
+		viol("attempts-identity", "the done event violates Attempts == 1 + Hedges + Retries")
+		return
+	}
+	for _, ru := range runsC {
+		if ru.statsBad != "" {
+			viol("attempts-identity", ru.statsBad)
+			return
+		}
+	}
+	if prop != "C09" {
+		if len(hts) > 0 {
+			rep.Distinct(fmt.Sprintf("hedge-stats|%d|%s|%d|%d", cs.MaxHedges, cs.Placement, len(runsC), len(hts)))
+		}
 		return
 	}
 	// winner: produced by an attempt
